@@ -101,6 +101,22 @@ func c15Dense(r *rng, tag string) [][]string {
 	return es
 }
 
+// two sparse layers of 33-36 nodes each: more than 1024 cells between them (size thresholds of pooled buffers)
+func c15VeryWide(r *rng, tag string) [][]string {
+	a, b := r.between(33, 36), r.between(33, 36)
+	var es [][]string
+	for y := 0; y < b; y++ {
+		for k := r.between(1, 2); k > 0; k-- {
+			es = append(es, []string{fmt.Sprintf("t%s%d", tag, r.intn(a)), fmt.Sprintf("b%s%d", tag, y)})
+		}
+	}
+	for x := 0; x < a; x++ {
+		es = append(es, []string{"root" + tag, fmt.Sprintf("t%s%d", tag, x)})
+	}
+	shuffleEdges(r, es)
+	return es
+}
+
 func c15Schedules(r *rng, n int) []*spec.Schedule {
 	var out []*spec.Schedule
 	out = append(out, &spec.Schedule{Policy: "rr"})
@@ -240,7 +256,18 @@ func (cx *Ctx) runC15() {
 		k := r.between(2, 8)
 		calls := cx.c15Calls(&r, k)
 		dense := r.chance(2)
-		if dense {
+		if !dense && r.chance(3) {
+			// one caller with very wide layers next to ordinary wide ones (a buffer recycled by the first serves the others)
+			dense = true
+			k = r.between(2, 3)
+			o := spec.Options{P1: pick(&r, "", "dfs"), P4: pick(&r, "", "valign", "packright"), P5: pick(&r, "", "straight", "noop")}
+			calls = []spec.Call{{Edges: c15VeryWide(&r, "v"), Opts: o}}
+			for len(calls) < k {
+				w := cx.c15Calls(&r, 1)[0]
+				w.Opts = o
+				calls = append(calls, w)
+			}
+		} else if dense {
 			k = 2
 			o := spec.Options{P1: pick(&r, "", "dfs"), P4: pick(&r, "", "valign", "packright"), P5: pick(&r, "", "straight", "noop")}
 			calls = []spec.Call{{Edges: c15Dense(&r, "x"), Opts: o}, {Edges: c15Dense(&r, "y"), Opts: o}}
@@ -524,14 +551,18 @@ func (cx *Ctx) c15Real(r *rng) map[string]any {
 		cand = append(cand, &spec.Job{ID: len(cand), Kind: "multi", Calls: []spec.Call{{Edges: c15Dense(r, fmt.Sprint("d", i)), Opts: spec.Options{P5: "straight"}}},
 			Res: []spec.Resolution{{Adv: "identity"}, {Adv: "reverse"}}, Budgets: cx.Budgets})
 	}
+	for i := 0; i < 2; i++ {
+		cand = append(cand, &spec.Job{ID: len(cand), Kind: "multi", Calls: []spec.Call{{Edges: c15VeryWide(r, fmt.Sprint("w", i)), Opts: spec.Options{P5: "straight"}}},
+			Res: []spec.Resolution{{Adv: "identity"}, {Adv: "reverse"}}, Budgets: cx.Budgets})
+	}
 	var calls []spec.Call
 	for _, jr := range cx.sim.Run(cand, nil) {
 		if jr.Res != nil && len(jr.Res.Outcomes) == 2 && jr.Res.Outcomes[0].Verdict == "OK" && jr.Res.Outcomes[1].Verdict == "OK" && (jr.Res.Outcomes[0].Ticks < 300000 || jr.Job.ID >= 90) {
 			calls = append(calls, jr.Job.Calls[0])
 		}
 	}
-	if len(calls) > 52 {
-		calls = append(calls[:48], calls[len(calls)-4:]...)
+	if len(calls) > 54 {
+		calls = append(calls[:48], calls[len(calls)-6:]...)
 	}
 	rounds := cx.count(12, 120)
 	type cfg struct {
